@@ -900,6 +900,7 @@ def run_exp(cx):
                             {"units": render(s), "container": t[0], "finding_class": "F392"})
                     break
     plan_by = {x[0]: x for x in plan}
+    by_run = {(m_[0], m_[2], m_[3], m_[4]): ri.get(h_, ["err", "NoReply"]) for h_, m_ in hmeta.items()}
     for hid in sorted(hmeta, key=int):
         nm, tag, rend, o, ex, mid, s = hmeta[hid]
         a = ri.get(hid, ["err", "NoReply"])
@@ -928,10 +929,11 @@ def run_exp(cx):
             # … and not at all on an action / notification (it only gets there from a uses / augment)
             clamp = lambda t: re.sub(r"\|[0-9]+$", "|*", t) if re.search(r"\|(action|RPC|notification)\|", t) else re.sub(r"\|[1-9][0-9]*$", "|1", t)
             a, b = [clamp(t) for t in a], [clamp(t) for t in b]
-        if tag.startswith("damaged") and ex == 0 and a[:2] == ["err", "Fail"] and b[0] == "ok":
-            # a damaged set that only a LATER module repairs (e.g. min > max until a deviation replaces max): with immediate
+        if ex == 0 and a[:2] == ["err", "Fail"] and b[0] == "ok" and (tag.startswith("damaged") or by_run.get((nm, "structured", o, 1), ["err"])[0] == "ok"):
+            # a set that only a LATER module repairs (min > max until a deviation replaces max; a default that does not fit its type
+            # until a deviation makes the node not-supported): libyang compiles it with LY_CTX_EXPLICIT_COMPILE in the same order; with immediate
             # compilation the load of the damaged module alone fails; the model describes the completely loaded set
-            cx.dist["c11exp:damaged-set-fails-before-the-repairing-module-is-loaded"] += 1
+            cx.dist["c11exp:set-fails-before-the-repairing-module-is-loaded(immediate-mode;explicit-mode-compiles)"] += 1
             continue
         if a != b:
             cx.disagree("compile", hlines[int(hid)] + "  ## " + rend + " " + tag + " ## model: " + mlines[int(mid)][:2000], a, b)
@@ -955,6 +957,8 @@ def run_exp(cx):
         a = ri.get(hid, ["err", "NoReply"])
         if rend != "structured" or a[:2] == ["err", "Crash"] or (tag.startswith("damaged") and a[0] != "ok"):
             continue
+        if ex == 0 and a[0] != "ok" and by_run.get((nm, "structured", o, 1), ["err"])[0] == "ok":
+            continue        # fails before the repairing module is loaded (counted above); the explicit-mode reply is compared
         key = tuple(sorted(a))
         if nm not in ref:
             ref[nm] = (key, o, ex)
